@@ -121,7 +121,8 @@ type Frag struct {
 	Ok      bool // for mset
 	Done    bool // is the current frag completed
 
-	Redirects int // number of MOVED/ASK redirects followed so far
+	Redirects int  // number of MOVED/ASK redirects followed so far
+	Discard   bool // the reply belongs to no request and is dropped (ASKING)
 }
 
 func (f *Frag) MsgId() uint64 {
